@@ -133,6 +133,9 @@ class ArithOptimal(Contract):
         y = make_fxp(P, sy, wy, fy, codes=inp['cy'], shape=tuple(cfg['shy']), cfg={'overflow': 'wrap'},
                      status={'inaccuracy': inp['iy'], 'overflow': inp.get('oy', False), 'underflow': inp.get('uy', False)},
                      vdtype=int if (cfg.get('vint') and fy <= 0) else float)
+        if cfg.get('from_item'):
+            xa = make_fxp(P, sx, wx, fx, codes=[inp['cx'][0], 0], shape=(2,), cfg={'op_method': cfg['method'], 'rounding': 'around'}, vdtype=float)
+            x = xa[0]
         if cfg.get('widen_from'):
             x = make_fxp(P, sx, cfg['widen_from'], fx, codes=inp['cx'], shape=tuple(cfg['shx']), cfg={'op_method': cfg['method'], 'rounding': 'around'}, vdtype=float)
             x.resize(n_word=wx)
@@ -469,6 +472,9 @@ class ArithWide(ArithOptimal):
                     yield dict(op=op, x=list(x), y=list(y), method='raw', shx=[], shy=[])
                     if k % 4 == 0:
                         yield dict(op=op, x=list(x), y=list(y), method='raw', shx=[], shy=[], route=('func', 'np')[(k // 4) % 2])
+                    if x[1] >= 64 and k % 5 == 0:
+                        # the wide operand is an ELEMENT read from a wide array (x_arr[0]): it must still be Python-int backed
+                        yield dict(op=op, x=list(x), y=list(y), method='raw', shx=[], shy=[], from_item=True)
                     if x[1] >= 64 and k % 3 == 0:
                         # the wide operand was created narrower and widened by resize(): it must have moved to Python-int storage
                         yield dict(op=op, x=list(x), y=list(y), method='raw', shx=[], shy=[], widen_from=50)
